@@ -7,7 +7,9 @@
          (sources (("a" "b") "X") …))
 
   A directory is the list of its path components below the root of the tree; `_` = no binding.  An entry of `(qt …)`
-  may carry a 4th element `layout` or `action` (the class derives from QLayout resp. QAction).  `widgets` lists the root
+  may carry a 4th element `layout` or `action` (the class derives from QLayout resp. QAction).  An import node may carry
+  `(version "6.2")` and/or `(alias "W")` among its arguments: `(named "qmluic.QtWidgets" (version "6.2"))`,
+  `(dir (alias "B") ".." "b")`; `diags` holds errors and warnings alike, `accepted` looks at the errors only.  `widgets` lists the root
   object and then the children that resolve, in document order; a child that is an action is reported as "QAction".
   Answer (everything that came out of a map is sorted):
 
@@ -46,15 +48,34 @@ private def obj? : Sexp → Option Obj
   | .list [ty, p] => do pure { typeName := ← str? ty, prop := ← optStr? p }
   | _ => none
 
-private def import? : Sexp → Option Import
-  | .list [.atom "named", n] => (str? n).map .named
-  | .list (.atom "dir" :: segs) => (Sexp.mapM? str? segs).map .dir
+/-- the options `(version "6.2")` / `(alias "W")` of an import node (anywhere among its arguments) and the remaining
+    arguments in order -/
+private def stmtOpts : List Sexp → Option (Option String × Option String × List Sexp)
+  | [] => some (none, none, [])
+  | x :: xs => do
+    let (v, a, rest) ← stmtOpts xs
+    match x with
+    | .list [.atom "version", s] => pure (some (← str? s), a, rest)
+    | .list [.atom "alias", s] => pure (v, some (← str? s), rest)
+    | .list _ => none
+    | y => pure (v, a, y :: rest)
+
+/-- `(named "M")`, `(dir "seg" …)`, each optionally with `(version "…")` and/or `(alias "…")` -/
+private def import? : Sexp → Option ImportStmt
+  | .list (.atom "named" :: args) => do
+    let (v, a, rest) ← stmtOpts args
+    match rest with
+    | [n] => pure { what := .named (← str? n), version := v, alias := a }
+    | _ => none
+  | .list (.atom "dir" :: args) => do
+    let (v, a, rest) ← stmtOpts args
+    pure { what := .dir (← Sexp.mapM? str? rest), version := v, alias := a }
   | _ => none
 
 private def file? : Sexp → Option File
   | .list [.atom "file", stem, hasRoot, .list (.atom "imports" :: imps), .list [.atom "root", ty, p],
       .list (.atom "children" :: kids)] => do
-    pure { stem := ← str? stem, hasRoot := ← Sexp.toBool? hasRoot, imports := ← Sexp.mapM? import? imps,
+    pure { stem := ← str? stem, hasRoot := ← Sexp.toBool? hasRoot, stmts := ← Sexp.mapM? import? imps,
            root := ← obj? (.list [ty, p]), children := ← Sexp.mapM? obj? kids }
   | _ => none
 
@@ -120,6 +141,8 @@ def diagMessage : Diag → String
   | .unknownProperty c p => "unknown property of class '" ++ c ++ "': " ++ p
   | .notQWidget c => "class '" ++ c ++ "' is not a QWidget"
   | .notActionLayoutWidget c => "class '" ++ c ++ "' is not a QAction, QLayout, nor QWidget"
+  | .aliasedImport => "aliased import is not supported"
+  | .importVersionIgnored => "import version is ignored"
 
 private def dedup (l : List String) : List String := uniq [] l
 
